@@ -16,12 +16,74 @@ REGRESSIONS = [
 
 
 def classify(line):
-    """Key of a failing (spec-mismatching) history: used to match known findings."""
-    if "refused-attach-leaves-state-unchanged" in line:
-        return "attach:refused-attach-changes-state"
-    if "spec=nocap" in line and "impl=already" in line:
-        return "attach:full-reported-as-already-attached"
+    """Key under which a mismatch may be matched against known_findings.json.
+
+    Every C20 finding is FIXED in /repo (eeeea11, 359f071); a fixed entry must suppress
+    nothing, so no mismatch is ever keyed: a recurrence of F10 or any new disagreement is a
+    VIOLATION.  (If a finding is ever recorded as `known` again, its key must be derived here
+    from the finding's exact preconditions -- variant, capacity, the operation prefix and the
+    refused operation -- never from the symptom alone.)"""
     return None
+
+
+def label(line):
+    """Human-readable class of a mismatch, for the replay file only (suppresses nothing)."""
+    if "refused-attach-leaves-state-unchanged" in line:
+        return "a refused attach changed the wait set's state"
+    if "spec=nocap" in line and "impl=already" in line:
+        return "full wait set reported as AlreadyAttached"
+    return "unclassified"
+
+
+def signature(line):
+    """Shape of a MISMATCH line: kind, operation name, expected and observed value with all
+    numbers blanked.  Used only to keep examples of EVERY kind of disagreement (vlib.run_pipelines
+    keeps the first 200 lines, so a flood of one kind could crowd out a different one)."""
+    kind = "spec" if "kind=spec" in line else "model"
+    m = re.search(r"line=\[O (\w+)", line)
+    opn = m.group(1) if m else "?"
+    tail = line.split("] ", 1)[1] if "] " in line else line
+    tail = re.sub(r"impl=state-changed-from_\S+", "impl=state-changed", tail)
+    tail = re.sub(r"model=cnt=\S+", "model=<state>", tail)
+    return kind + " " + opn + " " + re.sub(r"\d+", "#", tail)
+
+
+def run_pipelines_by_signature(jobs, driver, per_sig=3, timeout=1500):
+    """Like vlib.run_pipelines (same counters), but MISMATCH lines are retained per signature:
+    up to `per_sig` examples of every distinct signature, however many lines other signatures
+    produce.  res["by_sig"]: signature -> {"count": n, "examples": [(label, cmd, line)]}."""
+    import concurrent.futures as cf
+    res = {"cases": 0, "ops": 0, "mismatches_model": 0, "mismatches_spec": 0, "distinct_nontrivial": 0,
+           "by_sig": {}, "opcount": {}, "failed_jobs": [], "extra": {}}
+
+    def one(job):
+        lbl, argv = job
+        rc, out = vlib.sh("set -o pipefail; " + " ".join(argv) + " 2>/dev/null | " + driver, timeout=timeout)
+        return lbl, argv, rc, out
+
+    with cf.ThreadPoolExecutor(max_workers=vlib.NPROC) as ex:
+        for lbl, argv, rc, out in ex.map(one, jobs):
+            got_summary = False
+            for line in out.split("\n"):
+                if line.startswith("MISMATCH"):
+                    e = res["by_sig"].setdefault(signature(line), {"count": 0, "examples": []})
+                    e["count"] += 1
+                    if len(e["examples"]) < per_sig:
+                        e["examples"].append((lbl, " ".join(argv), line))
+                elif line.startswith("SUMMARY"):
+                    got_summary = True
+                    for kv in line.split()[1:]:
+                        k, v = kv.split("=")
+                        res[k] = res.get(k, 0) + int(v)
+                elif line.startswith("OPCOUNT"):
+                    _, k, v = line.split()
+                    res["opcount"][k] = res["opcount"].get(k, 0) + int(v)
+                elif line.startswith("EXTRA"):
+                    _, k, v = line.split()
+                    res["extra"][k] = res["extra"].get(k, 0) + int(v)
+            if rc != 0 or not got_summary:
+                res["failed_jobs"].append((lbl, " ".join(argv), rc, out[-800:]))
+    return res
 
 
 def cleanup():
@@ -60,12 +122,14 @@ def run(ctx):
         if not cmd:
             ctx.violation("replay file names no harness command", {"replay": ctx.replay}, no_input=True)
             return
-        r = vlib.run_pipelines([("replay", cmd.split())], driver)
+        r = run_pipelines_by_signature([("replay", cmd.split())], driver)
         cleanup()
         ctx.cov.update({"evaluations": r["cases"], "ops_executed": r["ops"], "rule": "replay of " + ctx.replay})
-        for lbl, c, line in r["mismatch_lines"][:5]:
-            ctx.violation("replay still fails: " + line[:300], {"harness_cmd": c, "mismatch": line[:600]}, key=classify(line))
-        if not r["mismatch_lines"] and not r["failed_jobs"]:
+        for sig, e in list(r["by_sig"].items())[:10]:
+            lbl, c, line = e["examples"][0]
+            ctx.violation("replay still fails: " + line[:300], {"harness_cmd": c, "mismatch": line[:600], "class": label(line),
+                                                                 "occurrences": e["count"]}, key=classify(line))
+        if not r["by_sig"] and not r["failed_jobs"]:
             ctx.log("replay passes: no mismatch in", r["cases"], "cases")
         for lbl, c, rc, tail in r["failed_jobs"]:
             ctx.violation("replay job failed: " + lbl, {"cmd": c, "rc": rc, "tail": tail}, no_input=True)
@@ -115,7 +179,7 @@ def run(ctx):
     rnd("selcap2", "0011", 0, "full", 200, 4, nr)
     rnd("selcap1", "001", 0, "full", 120, 2, nr)
 
-    r = vlib.run_pipelines(jobs, driver)
+    r = run_pipelines_by_signature(jobs, driver)
     cleanup()
 
     # the two probes that need many descriptors
@@ -137,7 +201,7 @@ def run(ctx):
         ctx.violation("real posix_select reactor filled to its capacity (1024 descriptors): attaching a further, never "
                       "attached object must be refused with InsufficientCapacity: " + p2,
                       {"probe": p2, "how_to_rerun": exe + " selectfull", "expected": "three times Some(InsufficientCapacity)"},
-                      key="attach:full-reported-as-already-attached")
+                      key=None)
 
     ctx.cov.update({
         "evaluations": r["cases"], "distinct_nontrivial": r["distinct_nontrivial"],
@@ -166,29 +230,31 @@ def run(ctx):
     ctx.cov["samples"] = samples
     for lbl, cmd, rc, tail in r["failed_jobs"]:
         ctx.violation("correspondence job failed (harness or driver crashed): " + lbl, {"cmd": cmd, "rc": rc, "tail": tail}, no_input=True)
-    spec_mm = [m for m in r["mismatch_lines"] if "kind=spec" in m[2]]
-    model_mm = [m for m in r["mismatch_lines"] if "kind=model" in m[2]]
-    reported = set()
-    for lbl, cmd, line in spec_mm:
-        key = classify(line)
-        if key in reported:
-            continue
-        reported.add(key)
-        case_no = int(line.split("case=")[1].split()[0])
-        hist = vlib.extract_case(cmd.split(), driver, case_no)
-        op_no = int(line.split("op=")[1].split()[0])
-        ctx.violation("WaitSet differs from the reference specification: " + line[:300],
-                      {"history": [h[:400] for h in hist[:op_no + 2]], "harness_cmd": cmd, "mismatch": line[:600],
-                       "how_to_rerun": cmd + " | " + driver}, key=key)
-        if len(ctx.violations) >= 5:
+    # One violation per distinct KIND of disagreement (signature), spec mismatches first; nothing is
+    # keyed (see classify), nothing is dropped because another kind is more frequent.
+    sigs = sorted(r["by_sig"].items(), key=lambda kv: (0 if kv[0].startswith("spec") else 1, kv[0]))
+    ctx.cov["mismatch_signatures"] = {k: v["count"] for k, v in sigs[:50]}
+    max_reports = 12
+    for n, (sig, e) in enumerate(sigs):
+        if n >= max_reports:
+            ctx.violation("%d further kinds of disagreement not reported individually" % (len(sigs) - max_reports),
+                          {"signatures": {k: v["count"] for k, v in sigs[max_reports:max_reports + 100]}}, no_input=True)
             break
-    if model_mm and not spec_mm:
-        lbl, cmd, line = model_mm[0]
+        lbl, cmd, line = e["examples"][0]
         case_no = int(line.split("case=")[1].split()[0])
+        op_no = int(line.split("op=")[1].split()[0])
         hist = vlib.extract_case(cmd.split(), driver, case_no)
-        ctx.violation("correspondence model<->implementation broken (concrete model disagrees, reference agrees): " + line[:300],
-                      {"obligation": "G3 correspondence of model/WaitSet.v with iceoryx2/src/waitset.rs", "history": [h[:400] for h in hist[:40]],
-                       "harness_cmd": cmd, "mismatches": len(model_mm)}, no_input=True)
+        body = {"history": [h[:400] for h in hist[:op_no + 2]], "harness_cmd": cmd, "mismatch": line[:600],
+                "class": label(line), "signature": sig, "occurrences": e["count"],
+                "other_examples": [x[2][:300] for x in e["examples"][1:]],
+                "how_to_rerun": cmd + " | " + driver}
+        if sig.startswith("spec"):
+            # the property fails on this concrete history
+            ctx.violation("WaitSet differs from the reference specification: " + line[:300], body, key=classify(line))
+        else:
+            body["obligation"] = "G3 correspondence of model/WaitSet.v with iceoryx2/src/waitset.rs"
+            ctx.violation("correspondence model<->implementation broken (concrete model disagrees with the code): " + line[:300],
+                          body, no_input=True)
     if not proof_ok:
         if not ctx.violations:
             ctx.violation("proof obligation no longer checks: %s" % ctx.broken,
